@@ -138,8 +138,19 @@ func (g *Gen) seeds() []SymStep {
 	if g.rng.Intn(2) == 0 {
 		out = append(out, SymStep{Kind: "seed", Seed: &SeedSpec{Name: "u3", Confirmed: false, NOtp: 1}})
 	}
-	if c.Sms && g.rng.Intn(2) == 0 {
-		out = append(out, SymStep{Kind: "seed", Seed: &SeedSpec{Name: "u4", Confirmed: true, Sms: "+15550004", NRecovery: 2}})
+	if (c.Sms || c.Totp) && g.rng.Intn(2) == 0 {
+		// a second account with a second factor (so that two 2FA accounts can meet in one browser)
+		s4 := &SeedSpec{Name: "u4", Confirmed: true, NRecovery: 2}
+		if c.Sms {
+			s4.Sms = "+15550004"
+		}
+		if c.Totp && (!c.Sms || g.rng.Intn(2) == 0) {
+			s4.Totp = true
+			if g.rng.Intn(2) == 0 {
+				s4.Sms = ""
+			}
+		}
+		out = append(out, SymStep{Kind: "seed", Seed: s4})
 	}
 	return out
 }
@@ -831,6 +842,35 @@ func (g *Gen) scenarios() []intent {
 			return append(out, g.req(b, "POST", "SmsValidate", []KV{{"code", code}}))
 		})
 	}
+	if c.has("auth") && c.Totp {
+		// A (TOTP) is fully logged in; in the same browser V's password parks V's login; then the second-factor page is
+		// given A's code (or one of A's recovery codes): that proves A's factor, not V's
+		add(boost(2, "twofactor"), func() []SymStep {
+			var us []string
+			for _, n := range g.names {
+				if a, ok := g.r.acc[n]; ok {
+					if usr, ok := g.r.w.st.users[a.PID]; ok && usr.TOTPSecretKey != "" && !(c.Sms && c.SmsFirst && usr.SMSPhoneNumber != "") {
+						us = append(us, n)
+					}
+				}
+			}
+			if len(us) < 2 {
+				return nil
+			}
+			i := g.rng.Intn(len(us))
+			a, v := us[i], us[(i+1+g.rng.Intn(len(us)-1))%len(us)]
+			b := g.browser()
+			out := []SymStep{{Kind: "dropsess", U: b}, g.loginStep(b, a, Desc{K: "pw", U: a}, false),
+				g.req(b, "POST", "TotpValidate", []KV{{"code", Desc{K: "totp", U: a}}}),
+				g.loginStep(b, v, Desc{K: "pw", U: v}, false), {Kind: "tick", D: 31}}
+			if g.rng.Intn(3) == 0 {
+				out = append(out, g.req(b, "POST", "TotpValidate", []KV{{"recovery_code", Desc{K: "rc", U: a, I: g.rng.Intn(2)}}}))
+			} else {
+				out = append(out, g.req(b, "POST", "TotpValidate", []KV{{"code", Desc{K: "totp", U: a}}}))
+			}
+			return append(out, SymStep{Kind: "req", Req: &SymReq{Browser: b, Method: "GET", Route: "App", Arg: "11u0000"}})
+		})
+	}
 	if c.has("auth") && (c.Totp || c.Sms) {
 		// a recovery code completes a login, then the same code is presented again from another browser
 		add(boost(3, "twofactor", "onetime"), func() []SymStep {
@@ -1426,13 +1466,19 @@ func (g *Gen) scenarios() []intent {
 			b1, b2 := g.browser(), g.browser()
 			code := Desc{K: "totp", U: u}
 			again := code
-			switch g.rng.Intn(3) {
+			switch g.rng.Intn(5) {
 			case 0:
 				again = Desc{K: "mut", D: &code, Op: "space"}
 			case 1:
 				again = Desc{K: "mut", D: &code, Op: "lead"}
+			case 2, 3: // as authenticator apps display it: "123 456"
+				again = Desc{K: "mut", D: &code, Op: "inner", N: 3}
 			}
-			out := []SymStep{g.loginStep(b1, u, Desc{K: "pw", U: u}, false), g.req(b1, "POST", "TotpValidate", []KV{{"code", code}}),
+			first := code
+			if g.rng.Intn(4) == 0 {
+				first = Desc{K: "mut", D: &code, Op: "inner", N: 3}
+			}
+			out := []SymStep{g.loginStep(b1, u, Desc{K: "pw", U: u}, false), g.req(b1, "POST", "TotpValidate", []KV{{"code", first}}),
 				g.loginStep(b2, u, Desc{K: "pw", U: u}, false)}
 			if g.rng.Intn(2) == 0 { // a wrong guess in between does not make the spent code fresh again
 				out = append(out, g.req(b2, "POST", "TotpValidate", []KV{{"code", lit(pickS(g.rng, "000000", "12345", "Passw0rd!x"))}}))
@@ -1465,6 +1511,18 @@ func (g *Gen) scenarios() []intent {
 			}
 			out = append(out, SymStep{Kind: "req", Req: &SymReq{Browser: b, Method: "POST", Route: "EmailVerify", Arg: kind}},
 				end(lit(pickS(g.rng, "AAAAAAAAAAAAAAAAAAAAAA==", "stale-link", "x"))))
+			if g.rng.Intn(2) == 0 {
+				// the mailed link is opened where nobody is logged in (another browser, an expired session): the
+				// gate refuses - and the link's token is nobody's business on the way (logs, redirect target)
+				b2 := g.browser()
+				if b2 != b {
+					e := end(Desc{K: "mailtok", Kind: "2fa", U: u})
+					r2 := *e.Req
+					r2.Browser = b2
+					e.Req = &r2
+					out = append(out, SymStep{Kind: "dropsess", U: b2}, e)
+				}
+			}
 			// near misses of the token that IS outstanding: a prefix (one character, a few, all but one), a changed
 			// character, a longer text - none of them is the token
 			exactTok := Desc{K: "sessval", B: b, V: "twofactor_auth_token"}
@@ -1539,6 +1597,32 @@ func (g *Gen) next() []SymStep {
 func (g *Gen) decorate(steps []SymStep) []SymStep {
 	for i := range steps {
 		r := steps[i].Req
+		if steps[i].Kind == "req" && r != nil && r.RawQuery == "" && !g.cfg.API && r.Method == "POST" && len(r.Form) > 0 && g.rng.Intn(100) < 5 {
+			// a field travels in the URL instead of the body (the body reader reads the merged form: body first,
+			// then query): whatever is validated is what is used
+			j := g.rng.Intn(len(r.Form))
+			mv := r.Form[j]
+			dup := false
+			for _, q := range r.Query {
+				if q.K == mv.K {
+					dup = true
+				}
+			}
+			if !dup {
+				nf := append([]KV{}, r.Form[:j]...)
+				r.Form = append(nf, r.Form[j+1:]...)
+				r.Query = append(append([]KV{}, r.Query...), mv)
+				if mv.K == "password" { // and its confirmation with it
+					for k, f := range r.Form {
+						if f.K == "confirm_password" {
+							r.Query = append(r.Query, f)
+							r.Form = append(append([]KV{}, r.Form[:k]...), r.Form[k+1:]...)
+							break
+						}
+					}
+				}
+			}
+		}
 		if steps[i].Kind != "req" || r == nil || r.RawQuery != "" || g.rng.Intn(100) >= 6 {
 			continue
 		}
